@@ -29,20 +29,36 @@ def budget(tier):
 
 def gen_case(rng, tier, k):
     if k % (25 if tier == "quick" else 10) == 0:
-        return {"model": rng.randrange(10000), "max_support": 10 if tier == "quick" else 13}
+        return {"model": rng.randrange(10000), "max_support": 13 if tier == "quick" else 20}
     nmax = 6 if tier == "quick" else 7
     bnet = common.g_mixed(rng, nmax=nmax, p_core=0.2)
+    wide = False
     if rng.random() < 0.12:
         # functions with many regulators and shared sub-structure (large BDDs for the implicant generator)
-        k = rng.randint(6, 7)
+        wide = True
+        k = rng.randint(7, 8)
         ins = [f"a{j}" for j in range(k)]
-        core = common.rand_expr(rng, ins, 4)
+        # a multiplexer tree over the first inputs with non-trivial leaf functions over the others: the
+        # branches share large sub-graphs (the shape of signalling functions in the published models)
+        nsel = rng.randint(2, 3)
+        sel, rest = ins[:nsel], ins[nsel:]
+        def leaf():
+            vs = rng.sample(rest, min(len(rest), rng.randint(3, 4)))
+            forms = ["{0} | {1} | ({2} & {3})", "{3} & ({0} | {1})", "({0} & {1}) | ({2} & {3})", "{0} | ({1} & {2})",
+                     "{0} & {1} & {2}", "({0} | {1}) & ({2} | {3})"]
+            vs = (vs * 2)[:4]
+            return "(" + rng.choice(forms).format(*vs) + ")"
+        def mux(d):
+            if d >= len(sel):
+                return leaf()
+            return f"(({sel[d]} & {mux(d + 1)}) | (!{sel[d]} & {mux(d + 1)}))"
+        core = mux(0)
         p, q = rng.sample(ins, 2)
         lines = [f"{v}, {v}" if rng.random() < 0.5 else f"{v}, {common.rand_expr(rng, ins, 2)}" for v in ins]
+        lines = [f"{v}, {v}" for v in ins]
         lines.append(f"x, ({core}) & (!{p} | !{q} | !x)")
-        lines.append(f"y, (({core}) & {p}) | (!({core}) & x)")
         bnet = "\n".join(lines)
-    return {"bnet": bnet, "free_inputs": rng.random() < 0.2,
+    return {"bnet": bnet, "wide": wide, "free_inputs": rng.random() < 0.2,
             "spaces": [[[rng.randrange(64), rng.randint(0, 1)] for _ in range(rng.randint(1, 3))] for _ in range(3)],
             "trap_pick": rng.randrange(1 << 20), "ops": gen_ops(rng, rng.randint(1, 3), allow_unmodelled=False),
             "remove_constants": rng.random() < 0.5}
@@ -107,8 +123,6 @@ def run_model_case(case):
     files = sorted(glob.glob(os.path.join(common.REPO, "models", "bbm-bnet-inputs-true", "*.bnet")))
     path = files[case["model"] % len(files)]
     bn = cleanup_network(BooleanNetwork.from_file(path))
-    if bn.variable_count() > 120:
-        return {"fails": [], "diffs": [], "tags": ["model:too-large"], "nontrivial": False}
     pn = network_to_petrinet(bn)
     names = bn.variable_names()
     by_var = {}
@@ -123,6 +137,8 @@ def run_model_case(case):
         sup = sorted({bn.get_variable_name(x) for x in f.support_variables()} | {v})
         if len(sup) > case["max_support"]:
             skipped += 1
+            continue
+        if len(sup) < case.get("min_support", 0):
             continue
         idx = {nm: i for i, nm in enumerate(sup)}
         exprs = [(common.prefix(f.as_expression(), idx) if nm == v else f"v{idx[nm]}") for nm in sup]
@@ -152,6 +168,13 @@ def run_model_case(case):
             "metrics": {"model_functions_checked": checked, "model_functions_skipped_large_support": skipped}}
 
 
+def corpus():
+    """the widest update functions of the bundled models that whole-support enumeration can afford in
+    the quick tier (support 10-13): their BDDs are where the implicant generator works hardest"""
+    wide = [1, 8, 17, 40, 55, 82, 92, 119, 120, 148, 164, 192, 193, 194, 207, 208, 0, 41, 54, 61, 72, 88, 144, 146]
+    return [{"model": k, "min_support": 10, "max_support": 13} for k in wide]
+
+
 def idx_by_id(bn, idx):
     """common.prefix indexes by VariableId: map ids of the support to local positions"""
     return {vid: idx[bn.get_variable_name(vid)] for vid in bn.variables() if bn.get_variable_name(vid) in idx}
@@ -168,7 +191,7 @@ def run_case(case):
     ni = common.NetInfo(sd.network)
     fails = []
     lines = [ni.net_line, "TRAPS"]
-    traps = common.run_driver(lines)[1].split()
+    traps = [] if case.get("wide") else common.run_driver(lines)[1].split()
     spaces = []
     for sp in case["spaces"]:
         d = {}
@@ -202,12 +225,12 @@ def run_case(case):
         what.append(f"net restricted to {d}")
         nontriv = True
     # nodes of a diagram: restriction of the parent's restriction
-    for op in case["ops"]:
+    for op in ([] if case.get("wide") else case["ops"]):
         try:
             plain.apply_op(sd, ni, op)
         except RuntimeError:
             pass
-    for i in list(sd.node_ids())[:6]:
+    for i in ([] if case.get("wide") else list(sd.node_ids())[:6]):
         sp = sd.node_data(i)["space"]
         if len(sp) == ni.n:
             continue
